@@ -47,11 +47,12 @@ def hide_typename(v):
 
 
 def make_async_resolvers(oracle, sched, plan, events, log, out_names=False, sources=None,
-                         typing="resolver"):
+                         typing="resolver", stats=None):
     """(field_resolver, type_resolver) whose awaitables are gates of the scheduler."""
     import asyncio
 
     sources = sources if sources is not None else []
+    stats = stats if stats is not None else {"inflight": 0}
     hide = hide_typename if typing == "is_type_of" else (lambda v: v)
 
     def pstr(path):
@@ -83,7 +84,7 @@ def make_async_resolvers(oracle, sched, plan, events, log, out_names=False, sour
             out = []
             for i, item in enumerate(raw):
                 if plan.is_async("item", path + [i]) and not isinstance(item, list):
-                    out.append(_later(sched, "i:" + pstr(path + [i]), item, events, path + [i]))
+                    out.append(_later(sched, "i:" + pstr(path + [i]), item, events, path + [i], stats))
                 else:
                     out.append(item)
             return out
@@ -97,15 +98,19 @@ def make_async_resolvers(oracle, sched, plan, events, log, out_names=False, sour
         raw = oracle.raw(src, info.parent_type.name, info.field_name, args)
         if plan.is_async("field", path):
             async def later():
+                stats["inflight"] += 1
                 try:
-                    await sched.gate("f:" + pstr(path))
-                except asyncio.CancelledError:
-                    events.append(("cancel", path))
-                    raise
-                events.append(("finish", path))
-                if isinstance(raw, Raise):
-                    raise Boom(raw.message)
-                return wrap(raw, path)
+                    try:
+                        await sched.gate("f:" + pstr(path))
+                    except asyncio.CancelledError:
+                        events.append(("cancel", path))
+                        raise
+                    events.append(("finish", path))
+                    if isinstance(raw, Raise):
+                        raise Boom(raw.message)
+                    return wrap(raw, path)
+                finally:
+                    stats["inflight"] -= 1
 
             return later()
         events.append(("finish", path))
@@ -140,11 +145,17 @@ def make_async_resolvers(oracle, sched, plan, events, log, out_names=False, sour
     return resolve, resolve_type
 
 
-def _later(sched, label, value, events, path):
+def _later(sched, label, value, events, path, stats=None):
     async def later():
-        await sched.gate(label)
-        if isinstance(value, Raise):
-            raise Boom(value.message)
-        return value
+        if stats is not None:
+            stats["inflight"] += 1
+        try:
+            await sched.gate(label)
+            if isinstance(value, Raise):
+                raise Boom(value.message)
+            return value
+        finally:
+            if stats is not None:
+                stats["inflight"] -= 1
 
     return later()
